@@ -569,7 +569,7 @@ Proof. unfold doc_force. cbn. split; [lra | ]. replace (0 - 1 * (1 - 0)) with (-
 Example ex_refused_premises :
   i_running (ex_i 0 2) = true /\ i_step (ex_i 0 2) = 0%Z /\ 1 / 4 < cv_dist2 Rops ex_c (i_x (ex_i 0 2)) 0 / (c_width ex_c * c_width ex_c).
 Proof. split; [reflexivity | split; [reflexivity | ]]. rewrite dist2_free by reflexivity. cbn. lra. Qed.
-Example ex_bypass_premises : exists e u, In e bypass_table /\ effective_bypass e u = Some true.
-Proof. exists ("harmonicwalls"%string, true, true), None. split; [vm_compute; tauto | reflexivity]. Qed.
+Example ex_bypass_premises : exists e, In e bypass_table.
+Proof. pose proof bypass_table_wf as H. destruct bypass_table as [| e t]; [discriminate H | exists e; left; reflexivity]. Qed.
 Example ex_route_premises : i_fb (mkInput 0%Z 0 0 1 0 true) = fst (route_bias Rops true 1) /\ i_fba (mkInput 0%Z 0 0 1 0 true) = snd (route_bias Rops true 1).
 Proof. split; reflexivity. Qed.
